@@ -573,11 +573,14 @@ def check_C06(tier):
     scns = (sc.traffic("C06", "bcast", caps=caps, probe=True) + sc.traffic("C06", "mpmc", caps=caps, probe=True) +
             sc.remove_stream("C06r", "bcast", caps=caps[:2]) + sc.population("C06p", "bcast", caps=caps[:2]) +
             sc.population("C06p", "mpmc", caps=caps[:2]) + sc.add_stream_scn("C06a", caps=caps[:2]) +
-            sc.add_vs_remove("C06x", caps=caps[:2]))
-    return generic_check("C06", tier, ["C06", "C01C06"], scns, plans_for(tier), RULE_CONC +
+            sc.add_vs_remove("C06x", caps=caps[:2]) +
+            # the futures side of the same rule: a sink that met a transient Full parks, and once the other calls have
+            # returned it must be running again (a sink parked for ever next to free slots is a Full that stayed)
+            sc.futures_scn("C06f", "bcast", caps=caps[:1]) + sc.traffic("C06", "bcast", fut=True, caps=caps[:1], probe=True))
+    return generic_check("C06", tier, ["C06", "C01C06", "C14", "C07C14"], scns, plans_for(tier), RULE_CONC +
                          "; every scenario ends with all threads joined and a single-threaded probe (drain every stream "
                          "to Empty, send until Full), whose calls are not overlapped and must equal the model exactly"
-                         + RULE_IMPL, models=[impl_model_stage(["spsc", "rmstream", "popsend", "poprecv", "unsub2"])])
+                         + RULE_IMPL, models=[impl_model_stage(["spsc", "rmstream", "popsend", "poprecv", "unsub2", "fut_shared", "fut_direct"])])
 
 
 def check_C07(tier):
